@@ -41,6 +41,7 @@ Uninstalls(keeps, nohs, drys) ==
   {[U("uninstall", "none") EXCEPT !.keep = k, !.nohooks = nh, !.dry = d] : k \in keeps, nh \in nohs, d \in drys}
 
 F == {FALSE}
+Forced(S) == {[m EXCEPT !.force = TRUE] : m \in S}
 CRDInstalls(reps, drys, nss, skips) ==
   {[U("install", "cR") EXCEPT !.replace = r, !.dry = d, !.createNS = n, !.skipCRDs = k] :
      r \in reps, d \in drys, n \in nss, k \in skips}
@@ -51,6 +52,7 @@ MenuLedger == Installs({"cA", "cB"}, B, B, F, F, F) \cup Upgrades({"cA", "cB"}, 
 \* cluster family (C02): growing / shrinking / changing / keep-toggling manifests
 MenuCluster == Installs({"cA", "cB", "cC", "cK"}, B, F, F, B, F) \cup Upgrades({"cA", "cB", "cC", "cK", "cV"}, F, F, {0}, F, B, F)
                \cup Rollbacks({0, 1}, {0}, F, F, F) \cup Uninstalls(B, F, F)
+               \cup Forced(Upgrades({"cA", "cB", "cC"}, F, F, {0}, F, F, F) \cup Rollbacks({0}, {0}, F, F, F))
 \* fault family (C03): atomic x cleanup x no-hooks
 MenuFault == Installs({"cA", "cH"}, F, B, B, F, F) \cup Upgrades({"cB", "cI", "cC"}, B, B, {0}, B, F, F)
              \cup Rollbacks({0, 1}, {0}, B, B, F) \cup Uninstalls(F, F, F)
@@ -78,7 +80,7 @@ MenuAll == MenuLedger \cup MenuCluster \cup MenuFault \cup MenuDry \cup MenuOwn 
 XLedger == Installs({"cA"}, B, B, F, F, F) \cup Upgrades({"cB"}, B, F, {0, 2}, F, F, F)
            \cup Rollbacks({0, 1}, {0, 2}, F, F, F) \cup Uninstalls(B, F, F)
 XCluster == Installs({"cA", "cC"}, F, F, F, B, F) \cup Upgrades({"cB", "cC", "cK"}, F, F, {0}, F, B, F)
-            \cup Rollbacks({0}, {0}, F, F, F) \cup Uninstalls(F, F, F)
+            \cup Rollbacks({0}, {0}, F, F, F) \cup Uninstalls(F, F, F) \cup Forced(Upgrades({"cB"}, F, F, {0}, F, F, F))
 XFault == Installs({"cA"}, F, B, F, F, F) \cup Upgrades({"cB"}, B, B, {0}, F, F, F)
           \cup Rollbacks({0}, {0}, F, B, F) \cup Uninstalls(F, F, F)
 XDry == Installs({"cH"}, B, F, F, F, B) \cup CRDInstalls(F, B, B, B) \cup Upgrades({"cI"}, F, F, {0, 1}, F, F, B)
